@@ -44,6 +44,8 @@ def run(chk, tier, seed):
                               f'glob({r["pattern"]}, exclude={r["exclude"]}{" (inline with NEGATE)" if r["inline"] else ""}, flags={r["fl"]}) on tree {r["tree"]}: {kind}: {w}',
                               replay(r, specs))
     tilde_clause(chk)
+    from checks import fixed_clauses
+    fixed_clauses.newline_names(chk, 'C13')
     chk.rule = ('bounded stand-in: lists of 1-4 overlapping / identical / case-variant / BRACE- and SPLIT-produced patterns with 0-2 exclusions (exclude= and inline !p) on '
                 'trees with case variants; the result is compared with the per-pattern results: set equality with the union minus paths matched by an exclusion (tested with a '
                 'trailing separator for directories, DOTGLOB forced); no path twice under the case rule in force; NOUNIQUE = exact concatenation')
